@@ -7,6 +7,7 @@ import (
 	"go/types"
 	"math"
 	"math/big"
+	"os"
 	"strings"
 
 	"golang.org/x/tools/go/ssa"
@@ -452,6 +453,9 @@ func (e *Exec) visitInstr(fr *frame, instr ssa.Instruction) continuation {
 	case *ssa.Store:
 		e.store(deref(instr.Addr.Type()), fr.get(instr.Addr), fr.get(instr.Val), instr)
 	case *ssa.If:
+		if e.tryChain(fr, instr) {
+			return kJump
+		}
 		succ := 1
 		if e.Decide(fr.get(instr.Cond).(*Term)) {
 			succ = 0
@@ -650,6 +654,9 @@ func (e *Exec) runFrame(fr *frame) {
 		}
 		fr.panicking = true
 		fr.panicVal = r
+		if e.Cfg.Trace || os.Getenv("VERIF_PANICS") != "" {
+			fmt.Printf("  target panic in %s: %s\n", fr.fn, describe(r.(targetPanic).v))
+		}
 		fr.runDefers()
 		fr.block = fr.fn.Recover
 		if fr.block == nil {
